@@ -24,11 +24,12 @@ ASG = lambda lv, e, op="=": ("=", op, lv, e)
 A, Bp, X, Y = V("a"), V("b"), V("x"), V("y")
 BATCH = 300
 
-UB_IDS = {"nullPointer", "zerodiv", "arrayIndexOutOfBounds", "negativeIndex", "bufferAccessOutOfBounds", "uninitvar",
-          "shiftTooManyBits", "shiftTooManyBitsSigned", "shiftNegative", "integerOverflow", "invalidFunctionArg",
-          "invalidLifetime", "danglingLifetime", "returnDanglingLifetime", "legacyUninitvar", "uninitdata",
-          "nullPointerArithmetic", "arrayIndexOutOfBoundsCond", "pointerOutOfBounds", "negativeArraySize", "ctunullpointer",
-          "ctuuninitvar", "ctuArrayIndex"}
+# ids whose undefined behaviour is visible to the execution oracle (UBSan trap, ASan, SIGSEGV/SIGFPE, shadow init flags).
+# invalidFunctionArg, danglingLifetime, returnDanglingLifetime, invalidLifetime, pointerOutOfBounds, nullPointerArithmetic,
+# uninitdata ... describe UB that no sanitizer reports reliably: not judged (counted as skipped).
+UB_IDS = {"nullPointer", "ctunullpointer", "zerodiv", "arrayIndexOutOfBounds", "negativeIndex", "ctuArrayIndex", "uninitvar", "legacyUninitvar",
+          "ctuuninitvar", "shiftTooManyBits", "shiftTooManyBitsSigned", "shiftNegative", "integerOverflow"}
+UNINIT_IDS = {"uninitvar", "legacyUninitvar", "ctuuninitvar"}
 LEAK_IDS = {"memleak", "resourceLeak"}
 MISUSE_IDS = {"doubleFree", "deallocuse", "mismatchAllocDealloc", "deallocDealloc", "useClosedFile"}
 # deallocret (`free(p); return p;`) uses the indeterminate VALUE of a dangling pointer without accessing the object: undefined
@@ -306,6 +307,9 @@ def judge(b, r, fam, samples=None):
                 hit = b.values(r, h.id)
         if o is None:
             cnt["skipped_location_not_mapped:" + fid] += 1
+            continue
+        if fid in UNINIT_IDS and not (o.node is not None and o.node[0] == "v" and o.node[1] in (r.fn.get("uninit") or ())):
+            cnt["skipped_uninit_read_without_shadow_flag:" + fid] += 1      # only instrumented scalar locals are decidable
             continue
         # is the blamed value definite (Known in the dump) at the operands the finding is about?
         if o.kind == "stmt":
